@@ -310,6 +310,16 @@ def create_props_metadata(
                     "Object array containing variable length properties has two "
                     f"dtypes: {dtype, array.dtype}"
                 )
+        if np.issubdtype(dtype, np.float16):
+            # same upcast as for fixed-shape properties, element by element
+            warnings.warn(
+                "Dtype float16 is being upcast to float32 for Java compatibility", stacklevel=2
+            )
+            upcast = np.empty(len(values), dtype=np.object_)
+            for i, array in enumerate(values):
+                upcast[i] = array.astype(np.float32)
+            prop_data["values"] = upcast
+            dtype = np.dtype(np.float32)
     return PropMetadata(
         identifier=identifier,
         dtype=dtype,  # pyright: ignore
